@@ -385,6 +385,8 @@ func RunCases(in, out, dumpDir string, skip, timeouts int) error {
 			err = runRT(enc, c)
 		case "file":
 			err = runFile(enc, c)
+		case "ser":
+			err = runSer(enc, c)
 		default:
 			err = fmt.Errorf("case line %d: unknown kind %q", n, c.Kind)
 		}
